@@ -10,22 +10,32 @@ ID = "C03"
 GEN = ["NeuronDynamics", "NeuronAdaptation"]
 LEVEL = "proof"
 TECHNIQUE = ("Coq proof over the reals about the kernels translated from neuron_dynamics.py / neuron_adaptation.py on every run: "
-             "case-complete characterisation of both thresholding kernels, refractory-window induction over arbitrary input/threshold "
-             "histories lifted to whole populations (all 8 classes, any batch/shape/adaptation), ODE-exactness of the linear "
-             "integrator, adaptation closed forms; class wiring tied to the code by differential correspondence")
-LEVEL_TEXT = ("Machine-checked proof (Coq, real-number reading of the generated kernels) that one step spikes exactly when the cell is out "
-              "of its refractory period and the integrated voltage reaches the threshold, that a spike resets voltage and refractory "
-              "time in the same step, that for every input/threshold history no further spike (and, with locking, no voltage change) "
-              "occurs before step t + max(1, ceil(refrac_t/dt)) and that a sufficient drive does spike at exactly that step, that the "
-              "remaining refractory time stays in [0, refrac_t], that the spike attribute equals the returned spikes when refrac_t > 0 "
-              "(and a refutation witness for refrac_t = 0), lifted from one cell to the whole-population model of all eight classes; the "
-              "class wiring (which kernel, which threshold/input adaptation, batch reduction) is hand-modelled and tied to the real classes "
-              "by a differential correspondence check; a Python restatement of the property is the direct oracle / failing-input search.")
-LEVEL_NOTE = ("Trusted: Coq kernel; translator for the 5 dynamics + 3 adaptation kernels (re-run every check); hand-written wiring model "
-              "C03/Neuron.v (forward of the 8 classes, spike attribute, clear, constructor domains) validated by correspondence only; "
-              "torch element-wise semantics, torch.sum / torch.mean modelled by their meaning. Theorems are exact-arithmetic (R) statements; "
-              "binary64 rounding is not proved (the oracle checks the window with ceil computed on the exact ratio of the two doubles, minus 1e-9). "
-              "NOT proved: nothing about dt setter / state_dict; batch_reduction other than torch.mean not modelled.")
+             "case-complete characterisation of both thresholding kernels against a three-case spec, refractory-window induction over "
+             "arbitrary input/threshold/lock histories lifted by a simulation theorem to whole populations (all 8 classes, any batch, "
+             "adaptation on/off), invariants over arbitrary operation sequences, ODE-exactness of the linear integrator, adaptation "
+             "closed forms; class wiring tied to the code by differential correspondence (vm_compute vs the real classes)")
+LEVEL_TEXT = ("Machine-checked proof (Coq 8.16, real-number reading of the generated kernels; 52 theorems + non-vacuity) that one step spikes "
+              "exactly when the cell is out of its refractory period and the integrated voltage reaches the (adapted) threshold; that a spike "
+              "resets voltage (constant or linear reset) and refractory time in the same step; that for EVERY input/threshold/lock history no "
+              "further spike occurs - and with locking the voltage does not move - before step t + max(1, ceil(refrac_t/dt)), that the "
+              "remaining time counts down exactly, and that the cell is free again exactly at that step (tightness, minimum inter-spike "
+              "interval); that the remaining refractory time stays in [0, refrac_t] and the spike attribute equals the returned tensor after "
+              "every forward of every operation sequence (forward/clear/train) when refrac_t > 0, with a refutation witness and a general "
+              "all-True theorem for refrac_t = 0 (known finding); all lifted from one cell to the whole-population model of the eight "
+              "classes by a simulation theorem. Integration kernels: documented formulas, the linear one is the exact ODE solution "
+              "(semigroup, n-step closed form, first-spike time under constant drive, no spike for sub-threshold steady states), the others "
+              "are Euler steps. Adaptation kernels: frozen in the refractory period, documented updates otherwise, sum-over-spikes closed "
+              "form, column-level batch-mean form. The class wiring is hand-modelled and tied to the real classes by a differential "
+              "correspondence check; a Python restatement of the property is the direct oracle / failing-input search.")
+LEVEL_NOTE = ("Trusted: Coq kernel; translator for the 5 dynamics + 3 adaptation kernels (re-run every check; generated kernels are also run "
+              "against the real functions through the correspondence); hand-written wiring model C03/Neuron.v (forward of the 8 classes, "
+              "apply_adaptive_*, batch mean, spike attribute, clear, constructor domains) validated by correspondence only (generator "
+              "coverage); torch element-wise semantics, torch.sum / torch.mean modelled by their meaning. Axioms: standard-library reals "
+              "(+ Classical_Prop.classic through Flocq/Coquelicot). Theorems are exact-arithmetic (R) statements; binary64 rounding is "
+              "not proved (the oracle checks the window with ceil computed on the exact ratio of the two doubles minus 1e-9, and tolerates "
+              "1e-9-relative ambiguity at the threshold except on exactly representable boundary cases). NOT covered: dt setter, "
+              "state_dict, batch_reduction other than torch.mean, float32, malformed input shapes (the model truncates, torch raises or "
+              "broadcasts). Expected known finding: spike attribute with refrac_t = 0 (signature kind=spike_attr_refrac0).")
 HEADER = ("From Coq Require Import List ZArith Bool PrimFloat.\n"
           "From Inferno Require Import Base.Num Base.NumF C03.Neuron C03.NeuronExec.\n"
           "Import ListNotations.\nOpen Scope float_scope.\n")
@@ -506,7 +516,7 @@ def load_corpus():
 
 def run(ctx):
     rng = random.Random(ctx["seed"])
-    n = 260 if ctx["tier"] == "quick" else 4000
+    n = 240 if ctx["tier"] == "quick" else 3000
     cases = load_corpus() + gen_cases(rng, n)
     if ctx["tier"] == "thorough":
         cases += small_scope_cases()
